@@ -34,7 +34,10 @@ def run(tier):
     # ---- spec behaviours
     cfg = os.path.join(c.run_dir, "ExprHeap.cfg")
     open(cfg, "w").write("CONSTANTS\n  MaxOps = %d\n  MaxNodes = %d\n  MaxHandles = 4\nINIT Init\nNEXT Next\nINVARIANTS Laws ArityIsSub EmitState\nCHECK_DEADLOCK FALSE\n" % ((3, 16) if quick else (4, 24)))
-    mc = vf.run_tlc("ExprHeap", cfg, c.run_dir, timeout=3000, xmx="16g", keep_out=False)
+    mc = vf.run_tlc("ExprHeap", cfg, c.run_dir, timeout=3000, xmx="16g", keep_out=False, coverage=True)
+    never = [a for a in ("CloneN", "DeepN", "SubstN", "SetChildN", "ChildN") if mc.coverage.get(a, (0, 0))[0] == 0]
+    if never:
+        raise vf.MachineryError("vacuous ExprHeap run: %s never taken" % never)
     c.add_tlc("ExprHeap", mc, "Laws (clone, clone_deeper, subst, set_child) on every operation sequence")
     if mc.violated:
         c.finding("c19:spec:%s" % mc.violated, "ExprHeap.tla: %s is violated by the transcribed operations" % mc.violated, {"tlc": mc.out[-3000:]})
